@@ -17,7 +17,7 @@ pub struct C19;
 const LIMIT: Duration = Duration::from_secs(20);
 
 /// fault name -> shell script body of the `rustfmt` stub (None = no stub: PATH holds an empty directory only)
-pub const FAULTS: [(&str, Option<&str>); 12] = [
+pub const FAULTS: [(&str, Option<&str>); 14] = [
     ("absent", None),
     ("exit1-after-reading", Some("cat >/dev/null\nexit 1\n")),
     ("exit1-without-reading", Some("exit 1\n")),
@@ -34,6 +34,11 @@ pub const FAULTS: [(&str, Option<&str>); 12] = [
     ("noisy-stderr-exit1-without-reading", Some("head -c 400000 /dev/zero | tr '\\0' 'x' >&2\nexit 1\n")),
     // reads everything, prints a prefix of it, then is killed by a signal (a truncated program must never be returned)
     ("partial-output-then-killed", Some("input=$(cat)\nprintf '%s' \"$input\" | head -c 400\nkill -9 $$\n")),
+    // prints something non-empty and exits 0 WITHOUT reading its input (a wrapper printing a banner, `--version` behaviour):
+    // on a module larger than the pipe buffer the write fails, and the banner must not be returned as the program
+    ("banner-exit0-without-reading", Some("printf 'fn main() {}\\n'\nexit 0\n")),
+    // the same, but the banner is valid Rust-looking text and the stub lingers a moment before exiting
+    ("banner-linger-exit0-without-reading", Some("printf '// formatted\\n'\nsleep 0.2\nexit 0\n")),
 ];
 
 /// Canonical token text: trailing commas before a closing delimiter dropped.
